@@ -5,6 +5,7 @@ use crate::refcodec::{self as rc, AckForm, AckKind, CPacket, Prop, SPacket};
 use crate::report::Rep;
 use crate::sim::Rng;
 use crate::world::*;
+use super::script::Alpha;
 use futures::io::{AsyncRead, AsyncWrite};
 use poster::{ConnectOpts, Context, PublishOpts, QoS, SubscribeOpts, SubscriptionOpts, UnsubscribeOpts};
 use std::collections::{HashMap, HashSet, VecDeque};
@@ -113,6 +114,39 @@ pub fn run(rep: &mut Rep) {
         if rep.take(idx, &id) {
             long_run(rep, &id, *total, *window, *ids, rep.seed.wrapping_add(k as u64));
         }
+    }
+    // small Receive Maximum: publishes refused for quota (their identifier never reaches the wire) interleaved with
+    // other identifier-consuming operations whose futures are polled late
+    let wa = Alpha {
+        kinds: vec![Kind::Pub1, Kind::Pub1, Kind::Pub2, Kind::Sub, Kind::Unsub, Kind::PubBig],
+        max_ops: 60,
+        max_conc: 8,
+        pub_ack_variants: vec![(0, 0), (2, 1)],
+        sub_ack_variants: vec![(0, 0)],
+        holds_any: true,
+        holds: true,
+        race: true,
+        drops: true,
+        ..Default::default()
+    };
+    let walks = if rep.quick() { 600 } else { 12000 };
+    rep.note(&format!("refusals: {walks} PRNG walks of 70 actions with Receive Maximum 1-3 (and Maximum Packet Size 64 in a third of them): QoS 1/2 publishes refused locally mixed with subscribes / unsubscribes from two handle clones, futures held back and polled late, the context held while requests queue, cancellations; every identifier on the wire checked against the outstanding set"));
+    for k in 0..walks {
+        let id = format!("refusal-walk:{k}");
+        idx += 1;
+        if !rep.take(idx, &id) {
+            continue;
+        }
+        let seed = rep.seed.wrapping_mul(1_000_003).wrapping_add(k);
+        let mut rng = Rng::new(seed);
+        let mut w = World::boot(WorldCfg { seed, receive_max: Some(1 + (k % 3) as u16), max_packet: if k % 3 == 0 { Some(64) } else { None }, order: (k % 4) as u8, ..Default::default() });
+        let acts = super::script::run_walk(&mut w, &wa, &mut rng, 70);
+        rep.add("evaluations", 1);
+        rep.add("refusal_walks", 1);
+        rep.add("id_consuming_operations", acts.iter().filter(|a| matches!(a, super::script::Act::Start(_) | super::script::Act::FirstPoll(_))).count() as i64);
+        rep.distinct(&("refusal", w.shape()));
+        harvest(rep, &mut w, &id);
+        add_counters(rep, &w);
     }
     // multi-thread
     let mt: Vec<(usize, usize)> = if rep.quick() { vec![(4, 12_000), (8, 8_000), (2, 12_000), (8, 5_000), (6, 8_000)] } else { vec![(4, 40_000), (8, 40_000), (8, 40_000), (6, 60_000), (2, 100_000), (8, 20_000), (3, 70_000), (5, 50_000)] };
